@@ -301,6 +301,7 @@ def _main(a, seed, t_start):
     # ---- bounded stand-in (thorough: every contract of the cone; quick: only behind undecided ones)
     undecided_units = sorted({r['unit'] for r in undecided if r['unit_kind'] == 'contract'})
     targets = [n for (k, n) in spec.units() if k == 'contract'] if thorough else undecided_units
+    targets = list(targets) + [n for (k, n) in spec.units() if k == 'contract' and reg.get(n).bounded_only and n not in targets]
     for name in targets:
         c = reg.get(name)
         if not c.bounded:
@@ -315,7 +316,7 @@ def _main(a, seed, t_start):
                 continue
             bounded_done[name] = (n, fails)
         bounded_rows.append({'contract': name, 'inputs': n, 'failures': len(fails), 'bounded': True})
-        for f in fails:
+        for f in fails[:3]:          # a few witnesses per contract are enough; the count is in the evidence
             sig = json.dumps(f.get('args'), sort_keys=True, default=repr)
             if (name, sig) in seen_sigs:
                 continue
@@ -363,6 +364,8 @@ def _main(a, seed, t_start):
         'undecided': [{'obligation': r['name'], 'why': r['detail']} for r in undecided][:50],
         'refuted': [{'obligation': r['name'], 'why': r['detail']} for r in refuted][:50],
         'bounded_checks': bounded_rows,
+        'functions_bounded_not_proved': sorted(n for (k, n) in spec.units() if k == 'contract' and reg.get(n).bounded_only),
+        'assumed_contracts': sorted({c.name for c in reg.all if c.trusted}),
         'known_findings_hit': [kf for kf, _ in known_hits],
         'source_sha256': source_hashes(),
         'samples': samples,
